@@ -300,7 +300,7 @@ def execute(parts, legacy, sched, devs):
                     return fail, r.marks, m
         r.w.settle()
         r.w.advance(6.0)
-        inv = r.invariants()
+        inv = r.invariants() or live_claimants(r, parts)
         if inv:
             return {"kind": inv[0], "at": "end", "detail": inv[1]}, r.marks, m
         if settled_ok:
@@ -310,6 +310,27 @@ def execute(parts, legacy, sched, devs):
         return None, list(r.marks), m
     finally:
         r.close()
+
+
+def live_claimants(r, parts):
+    """At quiescence every live pyscript task that successfully claimed a name must be its owner: a later claimant
+    would have cancelled it (this needs no model, so it also applies to executions with deviations)."""
+    own = r.owners()
+    live = r.liveness()
+    for mk in [tuple(x) for x in r.marks]:
+        i = mk[0]
+        kind, ctx, ops = parts[i]
+        if kind == "foreign" or not live.get(i, False):
+            continue
+        names = []
+        if len(mk) == 2 and mk[1] == "start" and kind in ("trgU", "trgK"):
+            names.append("n1")
+        if len(mk) == 3 and mk[2] == "u-ret":
+            names.append(ops[mk[1]][1])
+        for nm in names:
+            if own.get((ctx, nm)) != i:
+                return ("live-claimant-not-owner", {"task": i, "name": nm, "owner": own.get((ctx, nm))})
+    return None
 
 
 def compare(r, m, pos):
@@ -354,7 +375,7 @@ def configs(tier):
         if tier == "thorough":
             progs = full2 if ctxs == ("a", "a") else core2
         else:
-            progs = sorted(set(programs(OPS_FULL, 1)) | set(core2)) if ctxs == ("a", "a") else core1
+            progs = sorted(set(programs(OPS_FULL, 1)) | set(core2) | {(U1, U2), (U2, U1), (U2, K1)}) if ctxs == ("a", "a") else core1
         for p0, p1 in itertools.product(progs, repeat=2):
             out.append(([("svc", ctxs[0], p0), ("svc", ctxs[1], p1)], 0))
     # deviations on the core alphabet
@@ -374,6 +395,9 @@ def configs(tier):
     # three tasks
     for ps in itertools.product(programs([U1, K1], maxlen3), repeat=3):
         out.append(([("svc", "a", ps[0]), ("svc", "a", ps[1]), ("svc", "a", ps[2])], 0 if tier == "quick" else 1))
+    # an owner plus two claimers released in the same instant (deviations on three tasks)
+    for p1, p2 in itertools.product([(U1,), (K1,)], repeat=2):
+        out.append(([("svc", "a", (U1,)), ("svc", "a", p1), ("svc", "a", p2)], 1 if tier == "quick" else 2))
     if tier == "thorough":
         for ps in itertools.product(programs([U1, K1], 1), repeat=4):
             out.append(([("svc", "a", p) for p in ps], 0))
